@@ -66,10 +66,19 @@ class IsoTpStateMachine:
             frame_type, telegram_len = bitstruct.unpack("u4u4", data)
             assert isinstance(telegram_len, int)
 
-            self.on_single_frame(telegram_idx, data[1:1 + telegram_len])
-            self.on_telegram_complete(telegram_idx, data[1:1 + telegram_len])
+            payload_offset = 1
+            if telegram_len == 0 and len(data) > 8:
+                # CAN-FD single frame: the length of the telegram is
+                # specified by the second byte of the frame
+                telegram_len = data[1]
+                payload_offset = 2
 
-            yield (rx_id, data[1:1 + telegram_len])
+            payload = bytes(data[payload_offset:payload_offset + telegram_len])
+
+            self.on_single_frame(telegram_idx, payload)
+            self.on_telegram_complete(telegram_idx, payload)
+
+            yield (rx_id, payload)
 
         elif frame_type == IsoTp.FRAME_TYPE_FIRST:
             if len(data) < 2:
